@@ -154,3 +154,71 @@ theorem minList_le (l : List ℚ) (v : ℚ) (hv : v ∈ l) : minList l ≤ v := 
     · exact (foldl_rmin_le t x).2 v hv'
 
 end Model
+
+namespace Model
+
+theorem flat_length (f : ℤ → ℤ → ℚ) (n m : ℕ) : (flat f n m).length = n * m := by
+  unfold flat irange
+  simp only [Int.toNat_natCast]
+  induction n with
+  | zero => simp
+  | succ k ih =>
+    rw [List.range_succ, List.map_append, List.flatMap_append, List.length_append, ih]
+    simp [Nat.succ_mul]
+
+theorem flat_getElem (f : ℤ → ℤ → ℚ) (n m : ℕ) (i : ℕ) (hi : i < n * m) :
+    (flat f n m)[i]'(by rw [flat_length]; exact hi) = f ((i / m : ℕ) : ℤ) ((i % m : ℕ) : ℤ) := by
+  have hm : 0 < m := by
+    rcases Nat.eq_zero_or_pos m with h | h
+    · subst h; simp at hi
+    · exact h
+  induction n with
+  | zero => simp at hi
+  | succ k ih =>
+    have hsplit : flat f ((k + 1 : ℕ) : ℤ) m = flat f (k : ℤ) m ++ (List.range m).map (fun (x : ℕ) => f k x) := by
+      unfold flat irange
+      simp only [Int.toNat_natCast]
+      rw [List.range_succ, List.map_append, List.flatMap_append]
+      simp [List.map_map, Function.comp]
+    have hlen := flat_length f k m
+    by_cases hik : i < k * m
+    · have := ih hik
+      simp only [hsplit]
+      rw [List.getElem_append_left (by rw [hlen]; exact hik)]
+      exact this
+    · simp only [hsplit]
+      rw [List.getElem_append_right (by rw [hlen]; omega)]
+      simp only [hlen, List.getElem_map, List.getElem_range]
+      have hkm : (k + 1) * m = k * m + m := Nat.succ_mul k m
+      have h1 : i / m = k := by
+        apply Nat.div_eq_of_lt_le
+        · omega
+        · omega
+      have h2 : i % m = i - k * m := by
+        have := Nat.div_add_mod i m
+        rw [h1] at this
+        have e : m * k = k * m := Nat.mul_comm m k
+        omega
+      rw [h1, h2]
+
+theorem flat_ne_nil (f : ℤ → ℤ → ℚ) (n m : ℕ) (hn : 0 < n) (hm : 0 < m) : flat f n m ≠ [] := by
+  intro h
+  have := flat_length f n m
+  rw [h] at this
+  simp at this
+  rcases this.symm with h | h <;> omega
+
+theorem flat_at (f : ℤ → ℤ → ℚ) (n m y x : ℕ) (hy : y < n) (hx : x < m) :
+    ∃ h : y * m + x < (flat f n m).length, (flat f n m)[y * m + x] = f y x := by
+  have hlt : y * m + x < n * m := by
+    have : (y + 1) * m ≤ n * m := Nat.mul_le_mul_right m hy
+    rw [Nat.succ_mul] at this; omega
+  refine ⟨by rw [flat_length]; exact hlt, ?_⟩
+  rw [flat_getElem f n m _ hlt]
+  have h1 : (y * m + x) / m = y := by
+    rw [Nat.add_comm, Nat.add_mul_div_right _ _ (by omega), Nat.div_eq_of_lt hx]; simp
+  have h2 : (y * m + x) % m = x := by
+    rw [Nat.add_comm, Nat.add_mul_mod_self_right, Nat.mod_eq_of_lt hx]
+  rw [h1, h2]
+
+end Model
